@@ -72,6 +72,7 @@ func (e *RuleEntry) MakeCatalog(cat *Catalog) {
 		meta.RuleName = e.RuleName
 		meta.RuleDescription = e.RuleDescription
 		meta.Salience = e.Salience
+		meta.Deleted = e.Deleted
 	}
 }
 
